@@ -104,6 +104,16 @@ def stepInstr (s : St) (i : Instr) : Sum St End :=
   | 30 => withCtx (opPutCopy s.ctx (arg 0)) 1
   | 33 => withCtx (opAssoc s.ctx ((ps.drop 1).map s8)) ps.length
   | 67 => withCtx (opTempCopy s.ctx) 0
+  | 59 => withCtx (opPutGlyph s.ctx ((ps.getD 0 0) * 256 + ps.getD 1 0)) 2
+  | 56 => withCtx (opPutSubs s.ctx (arg 0) ((ps.getD 1 0) * 256 + ps.getD 2 0) ((ps.getD 3 0) * 256 + ps.getD 4 0)) 5
+  | 41 =>                                                   -- PUSH_GLYPH_ATTR_OBS <attr> <slot_ref>: nothing is pushed through a null slot
+    let rc := slotat s.ctx (arg 1)
+    (match rc.1 with
+     | some sl =>
+       (match push (glyphAttr rc.2 (rc.2.seg.get sl).gid (ps.getD 0 0)) { s.vm with dp := s.vm.dp + 2 } with
+        | .ok _ vm => .inl { vm := vm, ctx := rc.2 }
+        | .stop _ _ => .inr (.fault "stack"))
+     | none => .inl { vm := { s.vm with dp := s.vm.dp + 2 }, ctx := rc.2 })
   | 35 =>                                                   -- ATTR_SET <slat>: value popped
     (match pop s.vm with
      | .ok v vm => (match opAttrSet s.ctx (ps.getD 0 0) 0 (i16 v) with
